@@ -10,7 +10,8 @@
    [single_wf] = contract of tempfile.mkdtemp (fresh name, nothing at or below it) + the destination
    is not a directory.  [dest_of fs0 req] = realpath(req) if req is a symbolic link, else req. *)
 From Coq Require Import List Bool Arith Lia NArith.
-From IRV Require Import Base.Exn C08.Model C08.Proofs1 C08.Proofs2 C08.Proofs3 C08.Proofs4 C08.Proofs5 C08.Proofs6.
+From IRV Require Import Base.Exn C08.Model C08.Proofs1 C08.Proofs2 C08.Proofs3 C08.Proofs4 C08.Proofs5 C08.Proofs6 C08.Proofs7 C08.Proofs8.
+From IRV Require Import C08.Skel Gen.C08Gen C08.GenEquiv C08.Cfr.
 Import ListNotations.
 
 (* Crash atomicity, full strength: for every input and every prefix length k at most k effects happened and
@@ -74,6 +75,27 @@ Theorem C08_interrupt_atomic_parallel :
        /\ In (OReplace (tmpf_of sc dest) dest) (s_trace s).
 Proof. exact interrupt_atomic_image_par. Qed.
 Print Assumptions C08_interrupt_atomic_parallel.
+
+(* The parallel writer's bytes ARE the serial image: writing into the zero-preallocated file is writing into the
+   unpadded file and padding afterwards, as long as every range lies within the preallocated size; when that size is
+   the end of the last range (what _write_parallel computes) the two images coincide. *)
+Theorem C08_parallel_bytes_are_serial_bytes :
+  forall fs0 tens total l,
+  Forall (within fs0 tens total) l -> total <= length (image fs0 tens l) ->
+  image_from fs0 tens (repeat 0%N total) l = image fs0 tens l.
+Proof. exact parallel_image_eq. Qed.
+Print Assumptions C08_parallel_bytes_are_serial_bytes.
+
+Theorem C08_interrupt_atomic_parallel_serial_image :
+  forall fs0 tens small sc c total, sc_par sc = Some total -> single_wf fs0 sc -> src_wf fs0 tens sc ->
+  Forall (within fs0 tens total) (sc_tensors sc) -> total <= length (image fs0 tens (sc_tensors sc)) ->
+  let dest := dest_of fs0 (sc_req sc) in
+  let s := fst (run c fs0 tens small sc) in
+  lookup (s_fs s) dest = lookup fs0 dest
+  \/ exists m, lookup (s_fs s) dest = Some (File (image fs0 tens (sc_tensors sc)) m)
+       /\ In (OReplace (tmpf_of sc dest) dest) (s_trace s).
+Proof. exact interrupt_atomic_parallel_serial_image. Qed.
+Print Assumptions C08_interrupt_atomic_parallel_serial_image.
 
 (* without src_wf, either writer: the destination node is untouched or was moved wholesale from the temporary path after
    every action between its creation and os.replace returned normally (never a mixture or truncation) *)
@@ -175,6 +197,75 @@ Theorem C08_bystanders_untouched :
 Proof. intros fs0 tens small sc c p Hwf. exact (bystanders_untouched fs0 tens small sc Hwf c p). Qed.
 Print Assumptions C08_bystanders_untouched.
 
+(* The plan of the single-file save that all theorems above are about IS the meaning (C08/Skel.v: sequential
+   statements, try/finally = PTry, `with suppress(FileNotFoundError)`, the two loops over the overwritten tensors)
+   of the statement sequence of external_data._write_external_data as translated from the source tree on this
+   run (Gen/C08Gen.v, fail-closed: an unrecognised statement aborts the translation; a recognised but different
+   sequence - a step moved, dropped or added, `finally` turned into `except` - breaks this theorem). *)
+Theorem C08_plan_is_translated_source :
+  forall fs tens sc, interp_fn fs tens sc write_external_data_body = Some (plan_single fs tens sc).
+Proof. exact plan_from_source. Qed.
+Print Assumptions C08_plan_is_translated_source.
+
+(* The same for the sharded path: _check_no_existing_shard_files (every destination probed with os.path.exists,
+   FileExistsError before anything is written) and the sharded branch of _write_external_tensors (pre-flight before
+   the per-shard saves), translated from the source on this run, mean plan_sharded. *)
+Theorem C08_sharded_plan_is_translated_source :
+  forall fs tens small shards,
+  option_map (PSeq (PActs (plan_small small))) (interp_sharded check_no_existing_body sharded_branch_body fs tens shards)
+  = Some (plan_sharded fs tens small shards).
+Proof. exact sharded_from_source. Qed.
+Print Assumptions C08_sharded_plan_is_translated_source.
+
+(* ir.save as the entry point (run_io: the data file(s), then ASaveModel = onnx.save of the model file).  Once the
+   data write has succeeded, the destination holds exactly the complete new bytes WHATEVER happens while the model
+   file is written (success, OSError - ENOSPC, a directory at the model path ... -, or death): it is never
+   missing and never old-with-new-model. *)
+Theorem C08_model_file_failure :
+  forall fs0 tens small sc c, sc_par sc = None -> single_wf fs0 sc -> src_wf fs0 tens sc ->
+  snd (run c fs0 tens small sc) = SOk ->
+  (exists m, lookup (s_fs (fst (run_io c fs0 tens small sc))) (dest_of fs0 (sc_req sc))
+             = Some (File (image fs0 tens (sc_tensors sc)) m))
+  /\ (snd (run_io c fs0 tens small sc) = SOk \/ snd (run_io c fs0 tens small sc) = SRaise OSError
+      \/ snd (run_io c fs0 tens small sc) = SCrash).
+Proof. exact model_file_failure. Qed.
+Print Assumptions C08_model_file_failure.
+
+(* ... and for either writer and any outcome: through ir.save the directory and the tensors are exactly those of
+   the data-file save, so every theorem above transfers to run_io. *)
+Theorem C08_io_same_directory :
+  forall c fs tens small sc,
+  s_fs (fst (run_io c fs tens small sc)) = s_fs (fst (run c fs tens small sc))
+  /\ s_tens (fst (run_io c fs tens small sc)) = s_tens (fst (run c fs tens small sc)).
+Proof. exact run_io_fs. Qed.
+Print Assumptions C08_io_same_directory.
+
+Theorem C08_io_sharded_same_directory :
+  forall c fs tens small shards,
+  s_fs (fst (run_sharded_io c fs tens small shards)) = s_fs (fst (run_sharded c fs tens small shards)).
+Proof. exact run_sharded_io_fs. Qed.
+Print Assumptions C08_io_sharded_same_directory.
+
+(* ExternalTensor.tofile on regular files (C08/Cfr.v: the copy_file_range loop with arbitrary short copies, zero
+   answers, fallback and fatal errors of the kernel, then the chunked userspace loop): it returns normally only after
+   exactly [n] bytes were copied, which requires the source to hold them; a source shorter than offset+length always
+   raises; a long enough source is always copied completely. *)
+Theorem C08_copy_file_range_complete :
+  forall ans avail n chunk k u, tofile_fast ans avail n chunk = COk k u -> k + u = n /\ n <= avail.
+Proof. exact tofile_fast_complete. Qed.
+Print Assumptions C08_copy_file_range_complete.
+
+Theorem C08_copy_file_range_short_source_raises :
+  forall ans avail n chunk, avail < n -> exists k u, tofile_fast ans avail n chunk = CRaise k u.
+Proof. exact tofile_fast_short_source_raises. Qed.
+Print Assumptions C08_copy_file_range_short_source_raises.
+
+Theorem C08_copy_file_range_total :
+  forall ans avail n chunk, n <= avail -> 0 < chunk -> Forall (fun a => a <> KErrFatal) ans ->
+  exists k u, tofile_fast ans avail n chunk = COk k u.
+Proof. exact tofile_fast_total. Qed.
+Print Assumptions C08_copy_file_range_total.
+
 (* ---- the hypotheses are satisfiable by a non-trivial state; the model runs *)
 Definition ex_fs : fsT := [([1%N], File [1%N; 2%N; 3%N; 4%N] 384%N); ([2%N], File [9%N] 420%N)].
 Definition ex_tens : list tstate :=
@@ -228,6 +319,17 @@ Example ex_parallel_complete :
   /\ snd (run {| crash_at := None; fault_at := Some 14 |} ex_fs ex_tens [] ex_sc_par) = SRaise OSError
   /\ s_fs (fst (run {| crash_at := None; fault_at := Some 14 |} ex_fs ex_tens [] ex_sc_par)) = ex_fs.
 Proof. vm_compute. repeat split; reflexivity. Qed.
+Example ex_model_file_enospc :
+  snd (run no_ctl ex_fs ex_tens [] ex_sc) = SOk
+  /\ snd (run_io {| crash_at := None; fault_at := Some 21 |} ex_fs ex_tens [] ex_sc) = SRaise OSError
+  /\ lookup (s_fs (fst (run_io {| crash_at := None; fault_at := Some 21 |} ex_fs ex_tens [] ex_sc))) [1%N]
+     = Some (File [2%N; 3%N; 5%N; 6%N; 7%N] 384%N).
+Proof. vm_compute. repeat split; reflexivity. Qed.
+Example ex_within : Forall (within ex_fs ex_tens 5) (sc_tensors ex_sc_par) /\ 5 <= length (image ex_fs ex_tens (sc_tensors ex_sc_par)).
+Proof. vm_compute. split; [repeat constructor|repeat constructor]. Qed.
+Example ex_cfr_short_copies :
+  tofile_fast [KCopy 2; KCopy 0; KCopy 9] 20 9 4 = COk 2 7 /\ tofile_fast [KCopy 3; KErrFallback] 5 9 4 = CRaise 3 2.
+Proof. vm_compute. split; reflexivity. Qed.
 Example ex_src_wf : src_wf ex_fs ex_tens ex_sc.
 Proof. intros [|[|h]] x H; simpl in H; inversion H; subst; split; reflexivity. Qed.
 Example ex_keyboard_interrupt_clean :
